@@ -216,6 +216,8 @@ def one(ctx, rng, i):
         ctx.see("monotone scales", scale)
 
 
+# pure by their documentation: a sample of the calls is repeated in a fresh interpreter, in reverse order (stixmon/echo.py)
+ECHO = ['stix2.confidence.scales:value_to_none_low_medium_high', 'stix2.confidence.scales:value_to_zero_ten', 'stix2.confidence.scales:value_to_wep', 'stix2.confidence.scales:value_to_dni_scale', 'stix2.confidence.scales:value_to_admiralty_credibility', 'stix2.confidence.scales:zero_ten_to_value', 'stix2.confidence.scales:wep_to_value', 'stix2.confidence.scales:none_low_med_high_to_value', 'stix2.confidence.scales:admiralty_credibility_to_value', 'stix2.confidence.scales:dni_to_value']
 WORKLOADS = [Workload("domain", one, quick=lambda: len(CASES), thorough=lambda: len(CASES), exhaustive=True)]
 
 
@@ -231,7 +233,7 @@ def floors(m, tier):
 MANIFEST = {
     "text": ("Complete enumeration of the finite domain (every integer -60..160 and every label plus ~1200 near-miss "
              "labels, all five scales) against a frozen transcription of STIX 2.1 Appendix A; exhaustive for the "
-             "stated property, so a moved boundary, a swapped label or an accepted out-of-range value cannot hide."),
+             "stated property, so a moved boundary, a swapped label or an accepted out-of-range value cannot hide. Echo monitor: the conversions are repeated in a fresh interpreter in reverse order and must answer alike."),
     "note": "trusts the hand transcription of the Appendix A tables in stixmon/checks/c20.py",
-    "technique": "runtime monitoring: exhaustive call/return oracle against frozen specification tables",
+    "technique": "runtime monitoring: exhaustive call/return oracle against frozen specification tables; echo monitor (pure calls repeated in a fresh interpreter)",
 }
